@@ -49,14 +49,6 @@ def arrOf (m : Mem) (n : Nat) : Array UInt8 := (Array.range n).map (fun i => UIn
 
 def findFormat (name : String) : Option FormatSpec := Spec.all.find? (fun s => s.name == name)
 
-/-- Canonical header the Spec prescribes after initialisation: all zero except `consts`. -/
-def canonicalInit (s : FormatSpec) (extra : List (String × Nat)) (m : Mem) (pdu : Nat) : Mem :=
-  let zeroed : Mem := fun a => if pdu ≤ a ∧ a < pdu + s.headerLen then 0 else m a
-  (s.initConsts ++ extra).foldl (fun acc (n, v) =>
-    match s.fields.find? (fun fs => fs.enumName == s.enumPrefix ++ n) with
-    | some fs => specSet acc pdu fs.first fs.width (v % 2 ^ fs.width)
-    | none => acc) zeroed
-
 def endianOf (s : String) : Endian := if s == "B" then .big else .little
 
 def jsonStr (s : String) : String := "\"" ++ s ++ "\""
@@ -117,13 +109,13 @@ def step (st : State) (line : String) : State × String :=
   | ["init", id, off, fmt, _path] =>
     match st.get id, nat? off, findFormat fmt with
     | some a, some off, some s =>
-      (st.put id (arrOf (canonicalInit s [] (memOf a) off) a.size), "r 0")
+      (st.put id (arrOf (s.canonical false 0 (memOf a) off) a.size), "r 0")
     | _, _, _ => (st, "bad-op")
   -- legacy CVF initialiser takes the format subtype
   | ["init", id, off, fmt, _path, arg] =>
     match st.get id, nat? off, findFormat fmt, nat? arg with
     | some a, some off, some s, some arg =>
-      (st.put id (arrOf (canonicalInit s [("FORMAT_SUBTYPE", arg % 256)] (memOf a) off) a.size), "r 0")
+      (st.put id (arrOf (s.canonical true arg (memOf a) off) a.size), "r 0")
     | _, _, _, _ => (st, "bad-op")
   -- raw Utils.c: the hand MODEL of Avtp_GetField on a one-row table (host order `e`)
   | ["uget", id, off, q, o, b, e] =>
@@ -146,6 +138,14 @@ def step (st : State) (line : String) : State × String :=
     | some a, some off, some s, some w, some v =>
       (st.put id (arrOf (specSet (memOf a) off s w (v % 2 ^ w)) a.size), "")
     | _, _, _, _, _ => (st, "bad-op")
+  | ["facts", fmt] =>
+    match findFormat fmt with
+    | some s => (st, s!"f {s.headerLen} {s.headerLen} {s.headerLen}")
+    | none => (st, "bad-op")
+  | ["payload", fmt] =>
+    match findFormat fmt with
+    | some s => (st, if s.name == "Can" then s!"p {s.headerLen}" else "no-accessor")
+    | none => (st, "bad-op")
   | ["case", n] => (st, "case " ++ n)
   | [""] => (st, "")
   | _ => (st, "bad-op")
